@@ -517,16 +517,19 @@ def spec : Phase → Op → Spec Group
   | _, .processFullLive =>
     mkSpec ([.gconst, .sel, .lay, .log] ++ streamDeps)
       [.fec, .scr, .noi, .mfc, .cep, .feat, .sen, .cmn, .cnt, .beam, .hmm, .hist] streamDeps [.sel, .lay, .log] [] []
+  -- `decoder_end_utt` also drops the aligner made for a partial result (`d->align = NULL`) and, with
+  -- `backtrace = yes`, runs `decoder_hyp` / `decoder_seg_iter` itself: the result caches `res` are in its write set
+  -- (found by the static write-set tie, Props/C08Static)
   | .started, .endUtt =>
-    mkSpec ([.gconst, .sel, .lay, .log] ++ streamDeps) streamWrites streamDeps [.sel, .lay, .log] [.hmm] []
+    mkSpec ([.gconst, .sel, .lay, .log] ++ streamDeps) (.res :: streamWrites) streamDeps [.sel, .lay, .log] [.hmm] []
   | .batched, .endUtt =>
-    mkSpec ([.gconst, .sel, .lay, .log, .feat] ++ streamDeps) [.fec, .sen, .cmn, .cnt, .beam, .hist]
+    mkSpec ([.gconst, .sel, .lay, .log, .feat] ++ streamDeps) [.res, .fec, .sen, .cmn, .cnt, .beam, .hist]
       (.feat :: streamDeps) [.sel, .lay, .log] [.hmm] []
   | _, .endUtt =>
-    mkSpec ([.gconst, .sel, .lay, .log] ++ streamDeps ++ carried) streamWrites (streamDeps ++ carried)
+    mkSpec ([.gconst, .sel, .lay, .log] ++ streamDeps ++ carried) (.res :: streamWrites) (streamDeps ++ carried)
       [.sel, .lay, .log] [.hmm] []
   | _, .endUttEmpty =>
-    mkSpec [.cfg, .gram, .gconst, .fec, .cnt, .hmm, .hist, .log] [.fec, .cnt, .hist]
+    mkSpec [.cfg, .gram, .gconst, .fec, .cnt, .hmm, .hist, .log] [.res, .fec, .cnt, .hist]
       [.cfg, .gram, .fec, .cnt, .hmm, .hist] [.log] [.hmm] []
   | _, .query =>
     mkSpec [.cfg, .gram, .gconst, .hist, .res, .cnt, .log] [.res] [.cfg, .gram, .hist, .res, .cnt] [.log] [] []
